@@ -55,10 +55,18 @@ def embedded_run(case):
         b = os.path.join(tr.root, "decoys", "zz_other_last.cmake")
         open(a, "wb").write(OTHER_A)
         open(b, "wb").write(OTHER_B)
-        tr.argv = [a, tr.argv[0], b] + tr.argv[1:]
+        # ... and after a DIRECTORY input (its default prefix, index and settings must not leak
+        # into the inputs documented after it)
+        ddir = os.path.join(tr.root, "decoys", "zz_decoy_dir")
+        os.makedirs(ddir, exist_ok=True)
+        open(os.path.join(ddir, "zz_decoy_d1.cmake"), "wb").write(OTHER_B)
+        single = "tree" not in case
+        tr.argv = [ddir, a, tr.argv[0], b] + tr.argv[1:]
         ir = tr.run_impl()
-        ir["outfiles"] = {k: v for k, v in ir["outfiles"].items()
-                          if k not in ("zz_other_first.rst", "zz_other_last.rst")}
+        drop = {"zz_other_first.rst", "zz_other_last.rst", "zz_decoy_d1.rst"}
+        if single:
+            drop.add("index.rst")
+        ir["outfiles"] = {k: v for k, v in ir["outfiles"].items() if k not in drop}
         return ir
     finally:
         tr.cleanup()
